@@ -135,8 +135,47 @@ def per_mode_order(ctx, rule="C16.labels"):
                "mode order, not in the order of the request", role="per-mode-order", line=(bad.lineno if bad is not None else f.node.lineno))
 
 
+def reduced_purity(ctx, rule="C16.param-flow"):
+    from .common_guard import path_facts
+    ctx.explain(f"{rule}: (purity of a reduced state) where a Gaussian state class turns the reduced (mu, cov) of SOME modes into a state "
+                "vector (thewalrus state_vector - valid for pure states only) the branch is conditional on the reduced state being pure: "
+                "a path fact that looks at `modes` (all modes kept) or at the reduced covariance - the purity of the whole state says "
+                "nothing about one arm of an entangled pair.")
+    cls = ctx.tree.cls(ST, "BaseGaussianState")
+    n = 0
+    for name, f in sorted(cls.methods.items()):
+        if "modes" not in f.params:
+            continue
+        cfg = cfg_of(f.node)
+        for c in walk_no_nested(f.node):
+            if isinstance(c, ast.Call) and (dotted(c.func) or "").split(".")[-1] in ("state_vector", "pure_state_amplitude") and c.args:
+                ids = cfg.node_of_expr(c)
+                d = derives(f.node, c.args[1] if len(c.args) > 1 else c.args[0], ids[0] if ids else None)
+                if not d.has_call("self.reduced_gaussian"):
+                    continue
+                n += 1
+                ok = False
+                # facts that distinguish this branch from the general one (the density_matrix call), not the input guards shared by both
+                alt = [x for x in walk_no_nested(f.node) if isinstance(x, ast.Call) and (dotted(x.func) or "").split(".")[-1] == "density_matrix"]
+                common = set()
+                for x in alt:
+                    xi = cfg.node_of_expr(x)
+                    if xi:
+                        common |= {(ast.unparse(a_), v_) for a_, v_ in path_facts(cfg, xi[0])}
+                for a, v in (path_facts(cfg, ids[0]) if ids else []):
+                    if (ast.unparse(a), v) in common:
+                        continue
+                    da = derives(f.node, a, ids[0])
+                    if "modes" in da.params or any(dd.var == "modes" for dd in da.defs) or da.has_call("self.reduced_gaussian"):
+                        ok = True
+                ctx.ob(rule, f.site, ok, "" if ok else f"`{ast.unparse(c)[:40]}` is reached on the purity of the WHOLE state: the reduced state "
+                       "of one arm of a two-mode squeezed vacuum is returned as |0><0|", role="reduced-purity", line=c.lineno)
+    return n
+
+
 def rules(ctx):
     per_mode_order(ctx)
+    reduced_purity(ctx)
     layout(ctx)
     sibling_counts(ctx)
     param_flow(ctx)
